@@ -12,3 +12,5 @@ import Eliot.Properties.C01
 #print axioms Sys.C01.roundtrip_lines
 #print axioms Sys.C01.JsonView.codec_ok
 #print axioms Sys.C01.roundtrip_file
+#print axioms Sys.C01.extracted_fields
+#print axioms Sys.Emit.extOf_nearest
